@@ -116,9 +116,10 @@ def build(run):
     fresh = base_with(0)          # a credential as registration leaves it: counter Some(0)
     A = lambda: {"op": "get_assertion", "req": ga_req(rng, allow=[cid])}
     A2 = lambda: {"op": "get_assertion", "req": ga_req(rng, rp="other.org", allow=[bytes([0xC2]) * 16])}
+    As = lambda: {"op": "get_assertion", "req": ga_req(rng, allow=[cid], up=False, uv=False)}      # silent assertion (no presence required)
     Rg = lambda rk=False, ex=None: {"op": "make_credential", "req": mc_req(rng, rk=rk, exclude=ex)}
     groups = [(g, base) for g in ([A(), A()], [A(), Rg()], [Rg(), Rg()], [A(), A2()], [A(), Rg(rk=True)], [Rg(ex=[cid]), A()])]
-    groups += [([A(), A()], fresh), ([A(), Rg()], fresh)]
+    groups += [([A(), A()], fresh), ([A(), Rg()], fresh), ([A(), As()], base), ([As(), As()], fresh)]
     if run.tier != "quick":
         groups += [(g, base) for g in ([A(), A(), A()], [A(), A(), Rg()], [A(), Rg(), Rg()], [Rg(), Rg(), Rg()])]
         groups += [([A(), A(), A()], fresh)]
@@ -138,6 +139,18 @@ def build(run):
                             "user": {"verif_enabled": True, "presence_enabled": True, "script": [{"presence": True, "verification": True}]},
                             "ceremonies": g, "schedule": sched})
                 n_exh += exhaustive
+    # one store call refused (fault injected at call index k) in strictly sequential runs of two / three assertions and a
+    # registration: a refused counter write must fail that assertion, never produce a report the store does not hold
+    for kind in kinds[:2]:
+        for g in ([A(), A()], [A(), A(), A()], [A(), Rg(), A()]):
+            sched = [i for i, o in enumerate(g) for _ in range(polls_of(o))]            # ceremony 0 to completion, then 1, ...
+            n_calls = sum(polls_of(o) - 1 for o in g)
+            for k in range(n_calls):
+                for code in (0x28, 0x2E):
+                    scs.append({"mode": "concurrent", "config": {"aaguid": "00" * 16, "counter": True, "id_len": 16, "hmac": None},
+                                "store": {"kind": kind, "disc": "full", "empty_is_err": False, "content": base},
+                                "user": {"verif_enabled": True, "presence_enabled": True, "script": [{"presence": True, "verification": True}]},
+                                "ceremonies": g, "schedule": sched, "faults": [{"at": k, "code": code}]})
     # long random schedules over more ceremonies
     for _ in range(30 if run.tier == "quick" else 600):
         g = [rng.choice([A, A, A2, Rg])() for _ in range(rng.randrange(2, 6))]
@@ -198,7 +211,7 @@ def check(run):
         "theorems": thms, "evaluations": len(scs), "distinct_nontrivial": len(shapes),
         "rule": "all interleavings (at every suspension point) of assert/assert on one credential, assert/register, register/register, "
                 "assert/assert on two credentials, assert/register(rk), register(exclude)/assert on Arc<Mutex<MemoryStore>> and Arc<RwLock<MemoryStore>> "
-                "(thorough: triples and the reference store too), on a credential with counter 7 and on a fresh one (counter 0), plus random long schedules of 2-5 ceremonies; distinct = (store kind, ceremonies, schedule)",
+                "(thorough: triples and the reference store too), silent (up=false) assertions, sequential runs with one refused store call, on a credential with counter 7 and on a fresh one (counter 0), plus random long schedules of 2-5 ceremonies; distinct = (store kind, ceremonies, schedule)",
         "samples": [json.dumps({"ceremonies": [o["op"] for o in scs[0]["ceremonies"]], "schedule": scs[0]["schedule"], "store": scs[0]["store"]["kind"]})],
         "exhaustive_schedules": n_exh, "per_ceremony_replays": len(terms), "model_disagreements": len(res["agree"]),
         "oracle_failures": len(res["store_ok"]) + n_fail, "known_finding_hits": n_known,
